@@ -151,10 +151,26 @@ func (vc *FuncVC) staticModNames(sp *FuncSpec, sig *types.Signature, hasRecv boo
 			base = typeKey(t)
 		}
 		if g := vc.w.ghostField(t, f); g != nil {
-			out[base+"."+f] = true
-			if i != len(fields)-1 {
-				out["*"] = true
+			if i == len(fields)-1 {
+				out[base+"."+f] = true
+				return
 			}
+			// a ghost field holding a pointer (e.g. Bucket.gtx *Tx): continue at the pointee type
+			var gpkg *types.Package
+			if g.Pkg != "" {
+				gpkg = vc.w.typPkgs[g.Pkg]
+			}
+			gt := vc.w.LookupType(g.Sort, gpkg)
+			if gt == nil {
+				out["*"] = true
+				return
+			}
+			if p, ok := gt.Underlying().(*types.Pointer); ok {
+				t = p.Elem()
+				prefix = ""
+				continue
+			}
+			out["*"] = true
 			return
 		}
 		st, isS := t.Underlying().(*types.Struct)
